@@ -26,6 +26,7 @@ def main():
     ap.add_argument("--keep-as", default=None)
     ap.add_argument("--tier", default="quick")
     ap.add_argument("--round", default="")
+    ap.add_argument("--confirm-only", action="store_true")
     a = ap.parse_args()
     wt = f"/tmp/mut{a.round}_{a.prop}"
     out = f"{wt}/out"
@@ -71,7 +72,7 @@ def main():
     # our checks against the change
     checks = (a.checks.split(",") if a.checks else [a.prop])
     report["checks"] = {}
-    if confirmed:
+    if confirmed and not a.confirm_only:
         rc, o = sh(f"git -C /repo apply {patch}")
         if rc != 0:
             report["checks"]["apply_to_repo"] = "FAILED: " + o[-300:]
